@@ -59,6 +59,13 @@ impl<A: AttributeBind + AttributeUpdate> UnknownAttributeStorage for AttrSparseV
         lhs_inp: DartIdType,
         rhs_inp: DartIdType,
     ) -> TransactionClosureResult<(), AttributeError> {
+        if lhs_inp == rhs_inp {
+            // both inputs designate the same cell: nothing is merged, the value only moves
+            let v = self.data[lhs_inp as usize].read(trans)?;
+            self.data[lhs_inp as usize].write(trans, None)?;
+            self.data[out as usize].write(trans, v)?;
+            return Ok(());
+        }
         let new_v = match (
             self.data[lhs_inp as usize].read(trans)?,
             self.data[rhs_inp as usize].read(trans)?,
@@ -85,6 +92,13 @@ impl<A: AttributeBind + AttributeUpdate> UnknownAttributeStorage for AttrSparseV
         rhs_out: DartIdType,
         inp: DartIdType,
     ) -> TransactionClosureResult<(), AttributeError> {
+        if lhs_out == rhs_out {
+            // both outputs designate the same cell: nothing is split, the value only moves
+            let v = self.data[inp as usize].read(trans)?;
+            self.data[inp as usize].write(trans, None)?;
+            self.data[lhs_out as usize].write(trans, v)?;
+            return Ok(());
+        }
         let res = if let Some(val) = self.data[inp as usize].read(trans)? {
             AttributeUpdate::split(val)
         } else {
